@@ -178,6 +178,10 @@ package value
 //@   ensures[nil]      !(t.typ == arrayT && b.typ == arrayT) && anyNil(t, b) ==> isErr(result0, result1, ErrNil)
 //@   ensures[scalar]   !anyNil(t, b) && !(t.typ == arrayT && b.typ == arrayT) ==> isBool(result0, result1, ite(op == bytecode.NE, !weakScalar(t, b), weakScalar(t, b)))
 //@   ensures[shape]    result1 == nil ==> result0.typ == boolT && (result0.morph == 0 || result0.morph == 1)
+// ... and on every operand pair, arrays included, == answers the documented relation weq (element-wise, functions never
+// equal, int == float of the same value) and != its negation; whatever shortcut is taken, it has to agree with the
+// element-wise comparison (an array holding a function or a NaN is not equal to itself).
+//@   ensures[deep;C11] result1 == nil ==> result0.typ == boolT && (result0.morph != 0) == ite(op == bytecode.NE, !weq(t, b), weq(t, b))
 //
 // Function values: entry point, parameter count and local count survive the packing.
 //@ func NewFunction [C15]
